@@ -295,9 +295,15 @@ pub fn check(scn: &dyn Scenario, opts: &CheckOpts) -> i32 {
             det_mismatch.push(*idx);
         }
     }
-    if !det_mismatch.is_empty() {
+    let nondeterministic = !det_mismatch.is_empty();
+    if nondeterministic && a.found.is_empty() {
         eprintln!("HARNESS ERROR: nondeterminism: runs {:?} produced a different event-log digest on re-execution", det_mismatch);
         return 2;
+    }
+    if nondeterministic {
+        // A changed tree can introduce a source of nondeterminism of its own (e.g. iteration over a
+        // randomly keyed map). Violations are still reported if their class reproduces in a fresh process.
+        eprintln!("WARNING: runs {:?} were not reproducible bit for bit; violations are reported if their class reproduces in a fresh process", det_mismatch);
     }
 
     // Thorough tier: the same runs in two fresh processes with different worker counts.
@@ -330,7 +336,11 @@ pub fn check(scn: &dyn Scenario, opts: &CheckOpts) -> i32 {
         if !seen_classes.insert(f.class.clone()) {
             continue;
         }
-        let (plan, tape, detail, digest) = minimise(scn, &f.plan, &f.tape, &f.class, &f.detail, f.digest);
+        let (plan, tape, detail, digest) = if nondeterministic {
+            (f.plan.clone(), f.tape.clone(), f.detail.clone(), f.digest)
+        } else {
+            minimise(scn, &f.plan, &f.tape, &f.class, &f.detail, f.digest)
+        };
         let _ = std::fs::create_dir_all(&opts.replay_dir);
         let path = format!("{}/{}-{}-s{}-r{}.json", opts.replay_dir, prop, sanitize(&f.class), opts.seed, f.index);
         let file = json!({
@@ -339,7 +349,11 @@ pub fn check(scn: &dyn Scenario, opts: &CheckOpts) -> i32 {
             "original_detail": f.detail,
         });
         std::fs::write(&path, serde_json::to_string_pretty(&file).unwrap()).expect("write replay");
-        let ok = replay_in_fresh_process(&path);
+        let ok = replay_in_fresh_process(&path, nondeterministic);
+        if !ok && nondeterministic {
+            eprintln!("violation class={} did not reproduce in a fresh process (nondeterministic run); not reported", f.class);
+            continue;
+        }
         if !ok {
             eprintln!("HARNESS ERROR: replay of {} in a fresh process did not reproduce the violation", path);
             return 2;
@@ -366,7 +380,14 @@ pub fn check(scn: &dyn Scenario, opts: &CheckOpts) -> i32 {
         det_checked,
         reported
     );
-    if reported > 0 { 1 } else { 0 }
+    if reported > 0 {
+        1
+    } else if nondeterministic {
+        eprintln!("HARNESS ERROR: nondeterminism and no reproducible violation");
+        2
+    } else {
+        0
+    }
 }
 
 fn hang_secs() -> u64 {
@@ -406,13 +427,22 @@ fn report_hang(scn: &dyn Scenario, opts: &CheckOpts, idx: u64, t0: Instant) -> !
     std::process::exit(1);
 }
 
-fn replay_in_fresh_process(path: &str) -> bool {
+fn replay_in_fresh_process(path: &str, class_only: bool) -> bool {
     let exe = std::env::current_exe().expect("exe");
-    let out = std::process::Command::new(exe).arg("replay").arg(path).output();
-    match out {
-        Ok(o) => o.status.code() == Some(1) && String::from_utf8_lossy(&o.stdout).contains("REPRODUCED"),
-        Err(_) => false,
+    // with a nondeterministic tree try a few times: the class has to show at least once
+    for _ in 0..if class_only { 5 } else { 1 } {
+        let out = std::process::Command::new(&exe).arg("replay").arg(path).output();
+        if let Ok(o) = out {
+            let code = o.status.code();
+            if code == Some(1) && String::from_utf8_lossy(&o.stdout).contains("REPRODUCED") {
+                return true;
+            }
+            if class_only && code == Some(3) {
+                return true;
+            }
+        }
     }
+    false
 }
 
 /// Re-executes a replay file. Exit 1 + "REPRODUCED" if the same class shows, 0 if not.
